@@ -183,6 +183,7 @@ def run_dependencies(r):
     check_state(r, pre + "STATE", reach)
     check_library_configuration(r, pre)
     check_class_hooks(r, pre, reach | entries)
+    check_narrow_casts(r, pre + "NUM", reach | entries)
     if any(q.startswith("pyrepseq.nn.") and q.rsplit(".", 1)[1] in ("_to_triplets", "kdtree", "_kdtree_leven") for q in reach):
         check_start_method(r, pre + "START-METHOD")
         ran.append("start-method")
@@ -450,6 +451,66 @@ def check_state(r, rule, reach):
 
 _CONFIG_CALLS = {"numpy.seterr", "numpy.seterrcall", "numpy.errstate", "pandas.set_option", "pandas.options", "pandas.reset_option", "numpy.random.seed", "random.seed",
                  "warnings.simplefilter_error", "sys.setrecursionlimit", "decimal.getcontext"}
+
+
+_NARROW = {"int8", "int16", "int32", "uint8", "uint16", "uint32", "float16", "float32", "half", "single", "intc", "uintc", "short", "ushort", "byte", "ubyte",
+           "i1", "i2", "i4", "u1", "u2", "u4", "f2", "f4", "<i4", "<u4", "<f4", "<i2", "<u2", "b", "B", "h", "H", "e", "f"}
+
+
+def _narrow_dtype(t):
+    """name of a constant element type of fewer than 64 bits, else None."""
+    from .terms import is_const, strip
+    t = strip(t)
+    if head(t) == "glob" and t[1].startswith("numpy.") and t[1].split(".", 1)[1] in _NARROW:
+        return t[1]
+    if is_const(t) and isinstance(t[2], str) and t[2].lstrip("=<>|") in _NARROW | {"i4", "u4", "f4", "i2", "u2", "i1", "u1", "f2"}:
+        return repr(t[2])
+    if head(t) == "call" and strip(t[1]) == ("glob", "numpy.dtype") and len(t[2]) == 1:
+        return _narrow_dtype(t[2][0])
+    return None
+
+
+def check_narrow_casts(r, rule, functions):
+    """The value rules compare exact (integer / rational / 64-bit) arithmetic, which is what the package computes in.  A conversion to an
+    element type of fewer than 64 bits on a property's path - x.astype(np.int32), np.asarray(x, dtype=np.uint8), np.float32(x), a library
+    call told dtype=np.uint16 - wraps around or rounds for inputs the statements cover (counts above 46 340 squared in int32, distances
+    above 255 in uint8, integers above 2**24 in float32).  Lint: recognisably wrong whatever surrounds it.  (An element type that is a
+    parameter - the documented dtype argument of pdist / cdist - is the caller's choice and is not a constant.)"""
+    from .rules import where_of
+    from .terms import show, strip, strip_all, walk
+    seen = set()
+    for q in sorted(functions):
+        if q not in r.P.functions:
+            continue
+        try:
+            s = r.A.summary(q)
+        except AnalysisBroken:
+            continue
+        pool = [(e, v) for e in s.events for v in e.data.values() if isinstance(v, tuple)] + [(None, s.ret)]
+        for e, v in pool:
+            for x in walk(("t", v)):
+                if head(x) != "call":
+                    continue
+                f = strip(x[1])
+                kw = dict(x[3])
+                dt, what = None, None
+                if head(f) == "attr" and f[2] == "astype" and (x[2] or "dtype" in kw):
+                    dt, what = _narrow_dtype(x[2][0] if x[2] else kw["dtype"]), "astype"
+                elif head(f) == "glob" and f[1].startswith("numpy.") and f[1].split(".", 1)[1] in _NARROW and len(x[2]) == 1:
+                    dt, what = f[1], "conversion"
+                elif "dtype" in kw:
+                    dt, what = _narrow_dtype(kw["dtype"]), "dtype="
+                elif head(f) == "glob" and f[1] in ("numpy.asarray", "numpy.array", "numpy.zeros", "numpy.ones", "numpy.empty", "numpy.full") and len(x[2]) >= 2 and f[1] != "numpy.full":
+                    dt, what = _narrow_dtype(x[2][1]), "dtype="
+                if dt is None:
+                    continue
+                key = (q, what, dt, show(strip_all(x), 60))
+                if key in seen:
+                    continue
+                seen.add(key)
+                node = e.node if e is not None else s.func.node
+                r.rep.ob(rule, q, False, "values are kept in 64-bit (or exact) arithmetic on this property's path", where_of(r.P, s.func, node), expected="no conversion to an element type of fewer than 64 bits",
+                         found=f"{show(x, 80)}: {dt} wraps around / rounds for inputs the statement covers", key=f"narrow cast {dt} {q.rsplit('.', 1)[1]}", lint=True)
 
 
 def check_library_configuration(r, pre):
